@@ -230,6 +230,9 @@ Proof.
     unfold ident_of, is_hit in *; destruct (hn_len r); simpl in *; try discriminate; reflexivity.
 Qed.
 
+Lemma reset_note_ident : forall l, map ident_of (map reset_note l) = map ident_of l.
+Proof. intro l. rewrite map_map. apply map_ext. intro r. reflexivity. Qed.
+
 (* THE RESULT HAS EXACTLY THE TARGET'S NOTES — for all pairs of charts and every tie order of the two sorts. *)
 Theorem hs_notes_preserved : forall psrc ptgt src tgt out,
   forallb (fun r => is_some (hn_len r)) (hm_holds tgt) = true ->
@@ -238,7 +241,7 @@ Theorem hs_notes_preserved : forall psrc ptgt src tgt out,
 Proof.
   intros psrc ptgt src tgt out Hwf H. unfold hitsound_copy in H.
   destruct (sort_with psrc (filter loud (notes_df src))) as [s|]; [|discriminate].
-  destruct (sort_with ptgt (notes_df tgt)) as [df|] eqn:Ed; [|discriminate].
+  destruct (sort_with ptgt (map reset_note (notes_df tgt))) as [df|] eqn:Ed; [|discriminate].
   destruct (run_groups (group_by hn_off s) (df, [])) as [df' smp] eqn:Er. inversion H; subst; clear H.
   intro a. rewrite idents_out, (idents_tgt _ Hwf).
   rewrite <- map_app.
@@ -248,270 +251,1122 @@ Proof.
     - apply Permutation_sym, Permutation_cons_app, Permutation_sym, IHdf'. }
   rewrite (count_perm _ a _ _ (Permutation_map ident_of Hp)).
   pose proof (run_groups_ident (group_by hn_off s) (df, [])) as Hi. rewrite Er in Hi. simpl in Hi. rewrite Hi.
-  apply sort_with_Permutation in Ed. symmetry.
+  apply sort_with_Permutation in Ed. rewrite <- (reset_note_ident (notes_df tgt)). symmetry.
   apply count_perm. now apply Permutation_map.
 Qed.
 
-(* ================================================================== the unguarded statements are false of the faithful model *)
+(* ================================================================== what the repairs removed (OLD routine), and what is still false *)
 Definition w_note (t c hs v : Z) (f : name) : hnote := mkN t c None hs 0 0 0 v f.
 
-(* three named samples of one volume at one time, one target note: one is placed, one becomes an event
-   sample, the third is lost (the `break` in the file loop) *)
+(* OLD (before 19e0cd1): three named samples of one volume at one time, one target note: one is placed, one
+   becomes an event sample, the third was lost (the `break` in the file loop) *)
 Definition w1_src := mkM [w_note 0 0 0 30 [1]; w_note 0 1 0 30 [2]; w_note 0 2 0 30 [3]] [] [].
 Definition w1_tgt := mkM [w_note 0 0 0 0 [0]] [] [].
 
-Theorem hs_named_conserved_refuted :
+Theorem hs_named_conserved_OLD_refuted :
   exists psrc ptgt src tgt out,
     wf src tgt = true /\ tgt_silent tgt = true /\ no_semicolon src = true /\
-    hitsound_copy psrc ptgt src tgt = Some out /\ ~ named_conserved src out.
+    hitsound_copy_OLD psrc ptgt src tgt = Some out /\ ~ named_conserved src out.
 Proof.
   exists [0;1;2]%nat, [0]%nat, w1_src, w1_tgt.
   eexists. do 4 (split; [vm_compute; reflexivity|]).
   intro H. apply (msubb_complete atom_eqb) in H. vm_compute in H. discriminate.
 Qed.
 
-(* a target that carries sounds of its own keeps them: the result sounds a whistle and "t.wav" (file id 9)
-   that the source never had *)
+(* OLD (before a52f30c): a target that carries sounds of its own kept them: the result sounded a whistle and
+   "t.wav" (file id 9) that the source never had *)
 Definition w2_src := mkM [w_note 8 0 2 30 [0]] [] [].
 Definition w2_tgt := mkM [w_note 8 0 8 44 [9]; w_note 16 0 4 0 [0]] [] [].
 
-Theorem hs_no_invention_refuted :
+Theorem hs_no_invention_OLD_refuted :
   exists psrc ptgt src tgt out,
     wf src tgt = true /\ no_semicolon src = true /\ no_multi_overflow src tgt = true /\
-    hitsound_copy psrc ptgt src tgt = Some out /\ ~ no_invention src out.
+    hitsound_copy_OLD psrc ptgt src tgt = Some out /\ ~ no_invention src out.
 Proof.
   exists [0]%nat, [0;1]%nat, w2_src, w2_tgt.
   eexists. do 4 (split; [vm_compute; reflexivity|]).
   intros [H _]. apply (msubb_complete atom_eqb) in H. vm_compute in H. discriminate.
 Qed.
 
-(* a file name with ';' ("a;b" = [1;2]) is cut in two: neither piece was in the source, the name itself is lost *)
+(* STILL FALSE of the routine: a file name with ';' ("a;b" = [1;2]) is cut in two: neither piece was in the source,
+   the name itself is lost *)
 Definition w3_src := mkM [w_note 8 0 0 5 [1; 2]] [] [].
 Definition w3_tgt := mkM [w_note 8 0 0 0 [0]; w_note 8 1 0 0 [0]] [] [].
 
 Theorem hs_semicolon_refuted :
   exists psrc ptgt src tgt out,
-    wf src tgt = true /\ tgt_silent tgt = true /\ no_multi_overflow src tgt = true /\
-    hitsound_copy psrc ptgt src tgt = Some out /\ ~ no_invention src out /\ ~ named_conserved src out.
+    wf src tgt = true /\ hitsound_copy psrc ptgt src tgt = Some out
+    /\ ~ no_invention src out /\ ~ named_conserved src out.
 Proof.
   exists [0]%nat, [0;1]%nat, w3_src, w3_tgt.
-  eexists. do 4 (split; [vm_compute; reflexivity|]). split.
+  eexists. do 2 (split; [vm_compute; reflexivity|]). split.
   - intros [H _]. apply (msubb_complete atom_eqb) in H. vm_compute in H. discriminate.
   - intro H. apply (msubb_complete atom_eqb) in H. vm_compute in H. discriminate.
 Qed.
 
-(* ================================================================== the slot rule (one time, its volume groups) *)
-Definition nb (b : Z) (ws : list write) : nat :=
-  length (filter (fun w => match w with WBits val _ => Z.land val b =? b | WFile _ _ => false end) ws).
-Definition wfile_pairs (ws : list write) : list (Z * Z) :=
-  flat_map (fun w => match w with WFile f v => [(f, v)] | WBits _ _ => [] end) ws.
-Definition sample_pairs (ss : list hsample) : list (Z * Z) := map (fun s => (hd 0 (hs_file s), hs_vol s)) ss.
-Definition group_pairs (vgs : list (Z * list hnote)) : list (Z * Z) :=
-  flat_map (fun vg => map (fun f => (f, fst vg)) (group_files (snd vg))) vgs.
+(* ################################################################## WHOLE-CHART THEOREMS
+   The rest of the file lifts the slot rule of one time to whole charts: atoms are counted as rows, slot filling is
+   local to one time (run_groups / apply_at), the target frame is silent after the reset, group_by partitions the
+   sorted loud source rows, and the specification's demand is the model's need. *)
+
+(* ================================================================== counting rows instead of atoms *)
+Definition cnt {A : Type} (p : A -> bool) (l : list A) : nat := length (filter p l).
+
+Lemma cnt_app : forall A (p : A -> bool) l1 l2, cnt p (l1 ++ l2) = (cnt p l1 + cnt p l2)%nat.
+Proof. intros. unfold cnt. now rewrite filter_app, app_length. Qed.
+Lemma cnt_cons : forall A (p : A -> bool) x l, cnt p (x :: l) = ((if p x then 1 else 0) + cnt p l)%nat.
+Proof. intros. unfold cnt. simpl. destruct (p x); reflexivity. Qed.
+Lemma cnt_ext_in : forall A (p q : A -> bool) l, (forall x, In x l -> p x = q x) -> cnt p l = cnt q l.
+Proof. intros. unfold cnt. f_equal. now apply filter_ext_in. Qed.
+Lemma cnt_false : forall A (p : A -> bool) l, (forall x, In x l -> p x = false) -> cnt p l = O.
+Proof.
+  intros A p l H. induction l; [reflexivity|]. rewrite cnt_cons, H by now left.
+  rewrite IHl; [reflexivity | intros; apply H; now right].
+Qed.
+Lemma cnt_perm : forall A (p : A -> bool) l l', Permutation l l' -> cnt p l = cnt p l'.
+Proof. intros A p l l' H. induction H; rewrite ?cnt_cons; solve [lia | reflexivity]. Qed.
+Lemma cnt_filter : forall A (p q : A -> bool) l, cnt p (filter q l) = cnt (fun x => q x && p x) l.
+Proof.
+  intros. induction l; [reflexivity|]. simpl. destruct (q a) eqn:E; rewrite ?cnt_cons, ?E; simpl; rewrite IHl; reflexivity.
+Qed.
+Lemma cnt_le_length : forall A (p : A -> bool) l, (cnt p l <= length l)%nat.
+Proof. intros. induction l; [unfold cnt; simpl; lia|]. rewrite cnt_cons. simpl. destruct (p a); lia. Qed.
+
+Definition acount := count atom_eqb.
+
+Lemma count_flat_ind : forall A (h : A -> list atom) (m : A -> bool) a rows,
+  (forall r, acount a (h r) = if m r then 1%nat else 0%nat) -> acount a (flat_map h rows) = cnt m rows.
+Proof.
+  intros A h m a rows H. induction rows; [reflexivity|]. simpl. unfold acount in *.
+  rewrite (count_app atom_eqb), IHrows, cnt_cons, H. reflexivity.
+Qed.
+
+Definition bitmatch (bits : list Z) (a : atom) (r : hnote) : bool :=
+  let '(t, k, p, v) := a in
+  (hn_off r =? t) && (k =? 0) && (hn_vol r =? v) &&
+  match p with [b] => existsb (Z.eqb b) bits && (Z.land (hn_hs r) b =? b) | _ => false end.
+
+Definition filematch (a : atom) (r : hnote) : bool :=
+  let '(t, k, p, v) := a in
+  negb (name_empty (hn_file r)) && (hn_off r =? t) && (k =? 1) && list_eqb p (hn_file r) && (hn_vol r =? v).
+
+Definition smatch (a : atom) (s : hsample) : bool :=
+  let '(t, k, p, v) := a in
+  negb (name_empty (hs_file s)) && (hs_off s =? t) && (k =? 1) && list_eqb p (hs_file s) && (hs_vol s =? v).
+
+Lemma existsb_notin : forall b bits, ~ In b bits -> existsb (Z.eqb b) bits = false.
+Proof.
+  intros b bits H. destruct (existsb (Z.eqb b) bits) eqn:E; [|reflexivity].
+  apply existsb_exists in E as [x [Hin Hx]]. apply Z.eqb_eq in Hx. subst. contradiction.
+Qed.
+
+Lemma count_bit_atoms : forall bits a r, NoDup bits ->
+  acount a (bit_atoms bits r) = if bitmatch bits a r then 1%nat else 0%nat.
+Proof.
+  intros bits [[[t k] p] v] r. unfold bit_atoms, bitmatch, acount.
+  induction bits as [|b0 bits IH]; intro ND.
+  - simpl. destruct p as [|b [|]]; simpl; rewrite ?andb_false_r; reflexivity.
+  - inversion ND as [|? ? Hn ND']; subst. specialize (IH ND'). simpl filter.
+    destruct (Z.land (hn_hs r) b0 =? b0) eqn:Pb.
+    + simpl map. simpl count. rewrite IH. clear IH. unfold atom_eqb.
+      rewrite (Z.eqb_sym t), (Z.eqb_sym v).
+      destruct p as [|b [|]]; simpl; rewrite ?andb_false_r; try reflexivity.
+      destruct (b =? b0) eqn:E.
+      * apply Z.eqb_eq in E. subst b. rewrite Pb, (existsb_notin _ _ Hn). simpl.
+        destruct (hn_off r =? t), (k =? 0), (hn_vol r =? v); reflexivity.
+      * simpl. rewrite ?andb_false_r. simpl. reflexivity.
+    + rewrite IH. clear IH.
+      destruct p as [|b [|]]; simpl; try reflexivity.
+      destruct (b =? b0) eqn:E; simpl; [|reflexivity].
+      apply Z.eqb_eq in E. subst b. rewrite Pb, (existsb_notin _ _ Hn). simpl. rewrite ?andb_false_r. reflexivity.
+Qed.
+
+Lemma count_file_atoms : forall a r, acount a (file_atoms r) = if filematch a r then 1%nat else 0%nat.
+Proof.
+  intros [[[t k] p] v] r. unfold file_atoms, filematch, acount.
+  destruct (name_empty (hn_file r)); simpl; [reflexivity|].
+  rewrite (Z.eqb_sym t), (Z.eqb_sym v).
+  destruct (hn_off r =? t), (k =? 1), (list_eqb p (hn_file r)), (hn_vol r =? v); reflexivity.
+Qed.
+
+Lemma count_sample_atom : forall a s,
+  acount a (if name_empty (hs_file s) then [] else [(hs_off s, 1, hs_file s, hs_vol s)]) = if smatch a s then 1%nat else 0%nat.
+Proof.
+  intros [[[t k] p] v] s. unfold smatch, acount.
+  destruct (name_empty (hs_file s)); simpl; [reflexivity|].
+  rewrite (Z.eqb_sym t), (Z.eqb_sym v).
+  destruct (hs_off s =? t), (k =? 1), (list_eqb p (hs_file s)), (hs_vol s =? v); reflexivity.
+Qed.
+
+Lemma NoDup_bitvals : NoDup bitvals.
+Proof. unfold bitvals. repeat (constructor; [simpl; intuition discriminate|]). constructor. Qed.
+Lemma NoDup_copied : NoDup copied_bits.
+Proof. unfold copied_bits. repeat (constructor; [simpl; intuition discriminate|]). constructor. Qed.
+
+(* the atom multisets of the specification, as row counts *)
+Lemma count_note_atoms_rows : forall a rows,
+  acount a (flat_map (fun r => bit_atoms bitvals r ++ file_atoms r) rows)
+  = (cnt (bitmatch bitvals a) rows + cnt (filematch a) rows)%nat.
+Proof.
+  intros a rows. induction rows; [reflexivity|]. simpl. unfold acount in *.
+  rewrite !(count_app atom_eqb), IHrows, !cnt_cons.
+  pose proof (count_bit_atoms bitvals a a0 NoDup_bitvals) as B. pose proof (count_file_atoms a a0) as F.
+  unfold acount in *. rewrite B, F. lia.
+Qed.
+Lemma count_copy_atoms_rows : forall a rows,
+  acount a (flat_map (fun r => bit_atoms copied_bits r ++ file_atoms r) rows)
+  = (cnt (bitmatch copied_bits a) rows + cnt (filematch a) rows)%nat.
+Proof.
+  intros a rows. induction rows; [reflexivity|]. simpl. unfold acount in *.
+  rewrite !(count_app atom_eqb), IHrows, !cnt_cons.
+  pose proof (count_bit_atoms copied_bits a a0 NoDup_copied) as B. pose proof (count_file_atoms a a0) as F.
+  unfold acount in *. rewrite B, F. lia.
+Qed.
+Lemma count_named_atoms_rows : forall a rows, acount a (flat_map file_atoms rows) = cnt (filematch a) rows.
+Proof. intros. apply count_flat_ind. intro r. apply count_file_atoms. Qed.
+Lemma count_sample_atoms_rows : forall a m, acount a (sample_atoms m) = cnt (smatch a) (hm_samples m).
+Proof. intros. unfold sample_atoms. apply count_flat_ind. intro s. apply count_sample_atom. Qed.
+
+(* ================================================================== groupby: distinct keys, each group = the rows of its key *)
+Fixpoint sorted_lt (l : list Z) : Prop :=
+  match l with [] => True | x :: l' => (forall y, In y l' -> x < y) /\ sorted_lt l' end.
+
+Lemma uinsert_in : forall x l y, In y (uinsert x l) <-> y = x \/ In y l.
+Proof.
+  induction l as [|a l IHl]; simpl; intros; [intuition|].
+  destruct (x <? a) eqn:E1; simpl; [intuition|].
+  destruct (x =? a) eqn:E2; simpl.
+  - apply Z.eqb_eq in E2. subst. intuition.
+  - rewrite IHl. intuition.
+Qed.
+
+Lemma uinsert_sorted : forall x l, sorted_lt l -> sorted_lt (uinsert x l).
+Proof.
+  induction l as [|a l IHl]; simpl; intros H; [split; [intros y []|exact I]|]. destruct H as [H1 H2].
+  destruct (x <? a) eqn:E1.
+  - apply Z.ltb_lt in E1. simpl. split; [|auto]. intros y [<-|Hy]; [lia | specialize (H1 y Hy); lia].
+  - destruct (x =? a) eqn:E2; [simpl; auto|]. apply Z.ltb_ge in E1. apply Z.eqb_neq in E2.
+    simpl. split; [|auto]. intros y Hy. apply uinsert_in in Hy as [->|Hy]; [lia | auto].
+Qed.
+
+Lemma usort_in : forall l y, In y (usort l) <-> In y l.
+Proof. induction l as [|a l IHl]; simpl; intros; [tauto|]. rewrite uinsert_in, IHl. intuition. Qed.
+Lemma usort_sorted : forall l, sorted_lt (usort l).
+Proof. induction l as [|a l IHl]; simpl; [auto|]. now apply uinsert_sorted. Qed.
+Lemma sorted_lt_NoDup : forall l, sorted_lt l -> NoDup l.
+Proof.
+  induction l as [|a l IHl]; simpl; intros; [constructor|]. destruct H. constructor; [|auto].
+  intro Hin. specialize (H a Hin). lia.
+Qed.
+
+Lemma group_by_keys : forall key rows, map fst (group_by key rows) = usort (map key rows).
+Proof. intros. unfold group_by. rewrite map_map. simpl. apply map_id. Qed.
+Lemma group_by_NoDup : forall key rows, NoDup (map fst (group_by key rows)).
+Proof. intros. rewrite group_by_keys. apply sorted_lt_NoDup, usort_sorted. Qed.
+Lemma group_by_in : forall key rows k g, In (k, g) (group_by key rows) ->
+  g = filter (fun r => key r =? k) rows /\ In k (map key rows).
+Proof.
+  intros key rows k g H. unfold group_by in H. apply in_map_iff in H as [k' [E Hin]]. inversion E; subst.
+  split; [reflexivity|]. exact (proj1 (usort_in _ _) Hin).
+Qed.
+Lemma group_by_has : forall key rows k, In k (map key rows) ->
+  In (k, filter (fun r => key r =? k) rows) (group_by key rows).
+Proof. intros. unfold group_by. apply in_map_iff. exists k. split; [reflexivity|]. exact (proj2 (usort_in _ _) H). Qed.
+
+(* ================================================================== slot filling is local to one time *)
+Fixpoint wprefix (ws : list write) (rows : list hnote) {struct rows} : list hnote :=
+  match rows with
+  | [] => []
+  | r :: rows' => match ws with [] => rows | w :: ws' => do_write w r :: wprefix ws' rows' end
+  end.
+
+Lemma do_write_off : forall w r, hn_off (do_write w r) = hn_off r.
+Proof. destruct w; reflexivity. Qed.
+
+Lemma apply_at_same : forall t df ws, at_time t (apply_at t ws df) = wprefix ws (at_time t df).
+Proof.
+  unfold at_time. induction df as [|a df IHdf]; simpl; intros; [reflexivity|].
+  destruct (hn_off a =? t) eqn:E.
+  - destruct ws; simpl.
+    + rewrite E. reflexivity.
+    + rewrite do_write_off, E. simpl. now rewrite IHdf.
+  - simpl. rewrite E. apply IHdf.
+Qed.
+
+Lemma apply_at_other : forall t t' df ws, t' <> t -> at_time t' (apply_at t ws df) = at_time t' df.
+Proof.
+  unfold at_time. induction df as [|a df IHdf]; simpl; intros; [reflexivity|].
+  destruct (hn_off a =? t) eqn:E.
+  - apply Z.eqb_eq in E. destruct ws; simpl; [reflexivity|].
+    rewrite do_write_off. assert (hn_off a =? t' = false) as -> by (apply Z.eqb_neq; lia). now apply IHdf.
+  - simpl. destruct (hn_off a =? t'); [f_equal|]; now apply IHdf.
+Qed.
+
+Lemma wprefix_length : forall ws rows, length (wprefix ws rows) = length rows.
+Proof. intros ws rows. revert ws. induction rows; intros; simpl; [reflexivity|]. destruct ws; simpl; [reflexivity|]. now rewrite IHrows. Qed.
+
+Lemma slots_at_eq : forall t df, slots_at t df = length (at_time t df).
+Proof. reflexivity. Qed.
+
+Lemma slots_at_apply : forall t t' ws df, slots_at t' (apply_at t ws df) = slots_at t' df.
+Proof.
+  intros. rewrite !slots_at_eq. destruct (Z.eq_dec t' t) as [->|N].
+  - now rewrite apply_at_same, wprefix_length.
+  - now rewrite apply_at_other.
+Qed.
+
+Definition writes_for (df : list hnote) (og : Z * list hnote) : list write * list hsample :=
+  plan_groups (fst og) (group_by hn_vol (snd og)) (slots_at (fst og) df).
+
+Lemma writes_for_apply : forall t ws df og, writes_for (apply_at t ws df) og = writes_for df og.
+Proof. intros. unfold writes_for. now rewrite slots_at_apply. Qed.
+
+Lemma run_groups_local : forall ogs df smp df' smp',
+  NoDup (map fst ogs) ->
+  run_groups ogs (df, smp) = (df', smp') ->
+  (forall t, ~ In t (map fst ogs) -> at_time t df' = at_time t df)
+  /\ (forall og, In og ogs -> at_time (fst og) df' = wprefix (fst (writes_for df og)) (at_time (fst og) df))
+  /\ smp' = smp ++ flat_map (fun og => snd (writes_for df og)) ogs.
+Proof.
+  induction ogs as [|[t g] ogs IH]; intros df smp df' smp' ND H.
+  - simpl in H. inversion H; subst. split; [reflexivity|]. split; [intros og []|]. simpl. now rewrite app_nil_r.
+  - simpl in H. inversion ND as [|? ? Hn ND']; subst.
+    destruct (plan_groups t (group_by hn_vol g) (slots_at t df)) as [ws ss] eqn:E.
+    destruct (IH _ _ _ _ ND' H) as (A & B & C). clear IH H.
+    assert (Ew : writes_for df (t, g) = (ws, ss)) by exact E.
+    split; [|split].
+    + intros t' Hn'. simpl in Hn'. rewrite A by tauto. apply apply_at_other. intro; subst; apply Hn'; now left.
+    + intros og [<-|Hin].
+      * simpl fst. rewrite (A t Hn). rewrite apply_at_same. now rewrite Ew.
+      * rewrite (B og Hin). rewrite writes_for_apply. f_equal. apply apply_at_other.
+        intro Heq. apply Hn. rewrite <- Heq. now apply in_map.
+    + rewrite C. simpl. rewrite Ew. simpl. rewrite <- app_assoc. f_equal. f_equal.
+      apply flat_map_ext. intro og. now rewrite writes_for_apply.
+Qed.
+
+(* ================================================================== what the written rows sound = what was written *)
+Definition wbit (a : atom) (w : write) : bool :=
+  let '(t, k, p, v) := a in
+  match w with
+  | WBits val vol => (k =? 0) && (vol =? v) &&
+                     match p with [b] => existsb (Z.eqb b) bitvals && (Z.land val b =? b) | _ => false end
+  | WFile _ _ => false
+  end.
+Definition wfile (a : atom) (w : write) : bool :=
+  let '(t, k, p, v) := a in
+  match w with
+  | WFile f vol => negb (f =? 0) && (k =? 1) && list_eqb p [f] && (vol =? v)
+  | WBits _ _ => false
+  end.
+Definition wloud (w : write) : bool :=
+  match w with WBits val _ => negb (val =? 0) | WFile f _ => negb (f =? 0) end.
+
+Definition silent_at (t : Z) (r : hnote) : Prop := hn_off r = t /\ hn_hs r = 0 /\ hn_file r = [0].
+
+Lemma bitvals_nonzero : forall b, existsb (Z.eqb b) bitvals = true -> (Z.land 0 b =? b) = false.
+Proof.
+  intros b H. apply existsb_exists in H as [x [Hin Hx]]. apply Z.eqb_eq in Hx. subst x.
+  unfold bitvals in Hin. simpl in Hin. repeat (destruct Hin as [<-|Hin]; [reflexivity|]). contradiction.
+Qed.
+
+Lemma bitmatch_silent : forall a t r, silent_at t r -> bitmatch bitvals a r = false.
+Proof.
+  intros [[[t' k] p] v] t r (_ & Hs & _). unfold bitmatch. rewrite Hs.
+  destruct p as [|b [|]]; rewrite ?andb_false_r; try reflexivity.
+  destruct (existsb (Z.eqb b) bitvals) eqn:E; [rewrite (bitvals_nonzero _ E)|]; simpl; rewrite ?andb_false_r; reflexivity.
+Qed.
+Lemma filematch_silent : forall a t r, silent_at t r -> filematch a r = false.
+Proof. intros [[[t' k] p] v] t r (_ & _ & Hf). unfold filematch. rewrite Hf. reflexivity. Qed.
+Lemma sounding_silent : forall t r, silent_at t r -> sounding r = false.
+Proof. intros t r (_ & Hs & Hf). unfold sounding. rewrite Hs, Hf. reflexivity. Qed.
+
+Lemma name_empty_single : forall f, name_empty [f] = (f =? 0).
+Proof. destruct f; reflexivity. Qed.
+
+Lemma bitmatch_written : forall t k p v w r, silent_at t r ->
+  bitmatch bitvals (t, k, p, v) (do_write w r) = wbit (t, k, p, v) w.
+Proof.
+  intros t k p v w r (Ho & Hs & Hf). destruct w as [val vol|f vol]; unfold bitmatch, wbit, do_write; cbn [hn_off hn_hs hn_vol hn_file].
+  - rewrite Ho, Z.eqb_refl. reflexivity.
+  - rewrite Hs. destruct p as [|b [|]]; rewrite ?andb_false_r; try reflexivity.
+    destruct (existsb (Z.eqb b) bitvals) eqn:E; [rewrite (bitvals_nonzero _ E)|]; simpl; rewrite ?andb_false_r; reflexivity.
+Qed.
+Lemma filematch_written : forall t k p v w r, silent_at t r ->
+  filematch (t, k, p, v) (do_write w r) = wfile (t, k, p, v) w.
+Proof.
+  intros t k p v w r (Ho & Hs & Hf). destruct w as [val vol|f vol]; unfold filematch, wfile, do_write; cbn [hn_off hn_hs hn_vol hn_file].
+  - rewrite Hf. reflexivity.
+  - rewrite name_empty_single, Ho, Z.eqb_refl. rewrite andb_true_r. reflexivity.
+Qed.
+Lemma sounding_written : forall t w r, silent_at t r -> sounding (do_write w r) = wloud w.
+Proof.
+  intros t w r (Ho & Hs & Hf). destruct w as [val vol|f vol]; unfold sounding, wloud, do_write; cbn [hn_off hn_hs hn_vol hn_file].
+  - rewrite Hf. simpl. now rewrite orb_false_r.
+  - rewrite Hs, name_empty_single. reflexivity.
+Qed.
+
+Section Written.
+  Variable t : Z.
+  Lemma wprefix_cnt : forall (m : hnote -> bool) (mw : write -> bool) rows ws,
+    (forall r, In r rows -> silent_at t r) ->
+    (forall r, silent_at t r -> m r = false) ->
+    (forall w r, silent_at t r -> m (do_write w r) = mw w) ->
+    (length ws <= length rows)%nat ->
+    cnt m (wprefix ws rows) = cnt mw ws.
+  Proof.
+    intros m mw rows. induction rows as [|r rows IH]; intros ws Hs Hm Hw Hl.
+    - destruct ws; [reflexivity | simpl in Hl; lia].
+    - destruct ws as [|w ws].
+      + simpl. unfold cnt at 2. simpl. apply cnt_false. intros x Hx. apply Hm, Hs, Hx.
+      + simpl. rewrite !cnt_cons. rewrite (Hw w r) by (apply Hs; now left).
+        rewrite IH; [reflexivity | intros; apply Hs; now right | assumption | assumption | simpl in Hl; lia].
+  Qed.
+End Written.
+
+(* ================================================================== the slot rule of one time, in terms of what is sounded *)
 Definition need (g : list hnote) : nat :=
   (Nat.max (count_bit 2 g) (Nat.max (count_bit 4 g) (count_bit 8 g)) + length (group_files g))%nat.
 Definition total_need (vgs : list (Z * list hnote)) : nat := fold_right Nat.add O (map (fun vg => need (snd vg)) vgs).
-Definition total_bit (b : Z) (vgs : list (Z * list hnote)) : nat :=
-  fold_right Nat.add O (map (fun vg => count_bit b (snd vg)) vgs).
 
-Lemma nb_app : forall b w1 w2, nb b (w1 ++ w2) = (nb b w1 + nb b w2)%nat.
-Proof. intros. unfold nb. now rewrite filter_app, app_length. Qed.
-Lemma wfile_pairs_app : forall w1 w2, wfile_pairs (w1 ++ w2) = wfile_pairs w1 ++ wfile_pairs w2.
-Proof. intros. unfold wfile_pairs. now rewrite flat_map_app. Qed.
+Definition bval (c f w : bool) : Z := (if c then 2 else 0) + (if f then 4 else 0) + (if w then 8 else 0).
 
-Lemma val_bits : forall (c f w : bool),
-  let val := (if c then 2 else 0) + (if f then 4 else 0) + (if w then 8 else 0) in
-  (Z.land val 2 =? 2) = c /\ (Z.land val 4 =? 4) = f /\ (Z.land val 8 =? 8) = w.
-Proof. destruct c, f, w; vm_compute; auto. Qed.
-
-(* the default loop: min(k, free) notes are written; bit b is written min(count, free) times; nothing but WBits *)
-Lemma default_loop_spec : forall k c f w free vol ws fr,
-  default_loop k c f w free vol = (ws, fr) ->
-  length ws = Nat.min k free /\ fr = (free - length ws)%nat /\ wfile_pairs ws = [] /\
-  nb 2 ws = Nat.min (Nat.min k free) c /\ nb 4 ws = Nat.min (Nat.min k free) f /\ nb 8 ws = Nat.min (Nat.min k free) w.
+Lemma val_bit_general : forall c f w b,
+  existsb (Z.eqb b) bitvals && (Z.land (bval c f w) b =? b) = ((b =? 2) && c) || ((b =? 4) && f) || ((b =? 8) && w).
 Proof.
-  induction k; simpl; intros c f w free vol ws fr H.
+  intros c f w b.
+  destruct (existsb (Z.eqb b) bitvals) eqn:E.
+  - apply existsb_exists in E as [x [Hin Hx]]. apply Z.eqb_eq in Hx. subst x.
+    unfold bitvals in Hin. simpl in Hin.
+    repeat (destruct Hin as [<-|Hin]; [destruct c, f, w; reflexivity|]). contradiction.
+  - simpl. assert (H : forall x, In x bitvals -> (b =? x) = false).
+    { intros x Hx. destruct (b =? x) eqn:Ex; [|reflexivity]. exfalso.
+      assert (existsb (Z.eqb b) bitvals = true) by (apply existsb_exists; exists x; auto). congruence. }
+    rewrite (H 2), (H 4), (H 8) by (unfold bitvals; simpl; auto 10). reflexivity.
+Qed.
+
+Definition bitsel (b : Z) (c f w : nat) : nat := if b =? 2 then c else if b =? 4 then f else if b =? 8 then w else O.
+
+Lemma default_loop_wbit : forall k c f w free vol ws fr t k' p v,
+  default_loop k c f w free vol = (ws, fr) ->
+  cnt (wbit (t, k', p, v)) ws =
+    if (k' =? 0) && (Z.max vol 0 =? v)
+    then match p with [b] => Nat.min (Nat.min k free) (bitsel b c f w) | _ => O end else O.
+Proof.
+  induction k as [|k IH]; intros c f w free vol ws fr t k' p v H; simpl in H.
+  - inversion H; subst. unfold cnt. simpl. destruct ((k' =? 0) && (Z.max vol 0 =? v)); [destruct p as [|b [|]]|]; reflexivity.
+  - destruct free as [|free].
+    + inversion H; subst. unfold cnt. simpl. destruct ((k' =? 0) && (Z.max vol 0 =? v)); [destruct p as [|b [|]]|]; reflexivity.
+    + destruct (default_loop k (Nat.pred c) (Nat.pred f) (Nat.pred w) free vol) as [ws' fr'] eqn:E.
+      inversion H; subst; clear H. rewrite cnt_cons, (IH _ _ _ _ _ _ _ t k' p v E). clear IH E.
+      unfold wbit. fold (bval (pos c) (pos f) (pos w)).
+      destruct ((k' =? 0) && (Z.max vol 0 =? v)); cbn [andb]; [|reflexivity].
+      destruct p as [|b [|]]; try reflexivity.
+      rewrite val_bit_general. unfold bitsel.
+      destruct (b =? 2) eqn:E2; [apply Z.eqb_eq in E2; subst b; simpl; destruct c; simpl; lia|].
+      destruct (b =? 4) eqn:E4; [apply Z.eqb_eq in E4; subst b; simpl; destruct f; simpl; lia|].
+      destruct (b =? 8) eqn:E8; [apply Z.eqb_eq in E8; subst b; simpl; destruct w; simpl; lia|].
+      simpl. lia.
+Qed.
+
+Lemma default_loop_other : forall k c f w free vol ws fr,
+  default_loop k c f w free vol = (ws, fr) -> (k <= Nat.max c (Nat.max f w))%nat ->
+  (forall a, cnt (wfile a) ws = O) /\ forallb wloud ws = true
+  /\ length ws = Nat.min k free /\ fr = (free - length ws)%nat.
+Proof.
+  induction k as [|k IH]; intros c f w free vol ws fr H Hk; simpl in H.
   - inversion H; subst. simpl. repeat split; try reflexivity; lia.
-  - destruct free.
+  - destruct free as [|free].
     + inversion H; subst. simpl. repeat split; try reflexivity; lia.
     + destruct (default_loop k (Nat.pred c) (Nat.pred f) (Nat.pred w) free vol) as [ws' fr'] eqn:E.
-      inversion H; subst. clear H. specialize (IHk _ _ _ _ _ _ _ E) as (L & F & P & B2 & B4 & B8).
-      destruct (val_bits (pos c) (pos f) (pos w)) as (V2 & V4 & V8).
-      unfold nb in *. simpl. rewrite V2, V4, V8. rewrite L.
-      repeat split; try lia; try assumption.
-      * destruct c; simpl in *; lia.
-      * destruct f; simpl in *; lia.
-      * destruct w; simpl in *; lia.
+      inversion H; subst; clear H.
+      destruct (IH _ _ _ _ _ _ _ E) as (A & B & C & D); [lia|].
+      split; [|split; [|split]].
+      * intros [[[t k'] p] v]. rewrite cnt_cons. simpl. apply A.
+      * simpl. rewrite B, andb_true_r.
+        destruct c, f, w; try reflexivity. simpl in Hk. lia.
+      * simpl. rewrite C. reflexivity.
+      * simpl. rewrite C in *. lia.
 Qed.
 
-Lemma file_loop_len : forall files free off vol ws ss fr,
+Definition fm (a : atom) (vol : Z) (x : Z) : bool :=
+  let '(t, k, p, v) := a in (k =? 1) && list_eqb p [x] && (vol =? v).
+
+Lemma file_loop_match : forall files free off vol ws ss fr k p v,
+  0 <= vol -> (forall x, In x files -> x <> 0) ->
   file_loop files free off vol = (ws, ss, fr) ->
-  length ws = Nat.min (length files) free /\ fr = (free - length ws)%nat /\ nb 2 ws = O /\ nb 4 ws = O /\ nb 8 ws = O.
+  (cnt (wfile (off, k, p, v)) ws + cnt (smatch (off, k, p, v)) ss)%nat = cnt (fm (off, k, p, v) vol) files
+  /\ cnt (wbit (off, k, p, v)) ws = O /\ forallb wloud ws = true
+  /\ length ws = Nat.min (length files) free /\ fr = (free - length ws)%nat
+  /\ ((length files <= free)%nat -> ss = []).
 Proof.
-  induction files; simpl; intros free off vol ws ss fr H.
-  - inversion H; subst. simpl. repeat split; lia.
-  - destruct free.
-    + inversion H; subst. simpl. repeat split; lia.
-    + destruct (file_loop files free off vol) as [[ws' ss'] fr'] eqn:E. inversion H; subst. clear H.
-      specialize (IHfiles _ _ _ _ _ _ E) as (L & F & B2 & B4 & B8). unfold nb in *. simpl. rewrite L. repeat split; try lia; assumption.
+  induction files as [|x files IH]; intros free off vol ws ss fr k p v Hv Hnz H; simpl in H.
+  - inversion H; subst. unfold cnt. simpl. repeat split; try reflexivity; lia.
+  - assert (Hx : x <> 0) by (apply Hnz; now left).
+    assert (Hnz' : forall y, In y files -> y <> 0) by (intros; apply Hnz; now right).
+    destruct free as [|free].
+    + destruct (file_loop files 0 off vol) as [[ws' ss'] fr'] eqn:E. inversion H; subst; clear H.
+      destruct (IH _ _ _ _ _ _ k p v Hv Hnz' E) as (A & B & C & D & F & G).
+      rewrite !cnt_cons. split; [|split; [|split; [|split; [|split]]]]; try assumption.
+      * rewrite <- A. unfold smatch at 1, fm. cbn [hs_file hs_off hs_vol].
+        rewrite name_empty_single, Z.eqb_refl. apply Z.eqb_neq in Hx. rewrite Hx. simpl. lia.
+      * simpl in *. lia.
+      * simpl. intro; lia.
+    + destruct (file_loop files free off vol) as [[ws' ss'] fr'] eqn:E. inversion H; subst; clear H.
+      destruct (IH _ _ _ _ _ _ k p v Hv Hnz' E) as (A & B & C & D & F & G).
+      rewrite !cnt_cons. split; [|split; [|split; [|split; [|split]]]].
+      * rewrite <- A. unfold wfile at 1, fm. rewrite Z.max_l by lia. apply Z.eqb_neq in Hx. rewrite Hx. simpl. lia.
+      * simpl. exact B.
+      * simpl. apply Z.eqb_neq in Hx. rewrite Hx. simpl. exact C.
+      * simpl. rewrite D. reflexivity.
+      * simpl. rewrite D in *. lia.
+      * simpl. intro. apply G. lia.
 Qed.
 
-(* when the files fit they are all written, in order, and nothing overflows *)
-Lemma file_loop_fits : forall files free off vol, (length files <= free)%nat ->
-  file_loop files free off vol = (map (fun x => WFile x (Z.max vol 0)) files, [], (free - length files)%nat).
+(* the source side of one volume group *)
+Lemma bitmatch_group : forall bits t vol gv k p v,
+  (forall r, In r gv -> hn_off r = t /\ hn_vol r = vol) ->
+  cnt (bitmatch bits (t, k, p, v)) gv =
+    if (k =? 0) && (vol =? v)
+    then match p with [b] => if existsb (Z.eqb b) bits then count_bit b gv else O | _ => O end else O.
 Proof.
-  induction files; simpl; intros; [now rewrite Nat.sub_0_r|].
-  destruct free; [lia|]. rewrite IHfiles by lia. reflexivity.
+  intros bits t vol gv k p v H.
+  destruct ((k =? 0) && (vol =? v)) eqn:C.
+  - apply andb_prop in C as [C1 C2].
+    destruct p as [|b [|]].
+    + apply cnt_false. intros r Hr. unfold bitmatch. now rewrite andb_false_r.
+    + destruct (existsb (Z.eqb b) bits) eqn:E.
+      * unfold count_bit. apply cnt_ext_in. intros r Hr. destruct (H r Hr) as [Ho Hvv].
+        unfold bitmatch, has_bit. rewrite Ho, Hvv, Z.eqb_refl, C1, C2, E. reflexivity.
+      * apply cnt_false. intros r Hr. unfold bitmatch. rewrite E. simpl. now rewrite andb_false_r.
+    + apply cnt_false. intros r Hr. unfold bitmatch. now rewrite andb_false_r.
+  - apply cnt_false. intros r Hr. destruct (H r Hr) as [Ho Hvv]. unfold bitmatch. rewrite Ho, Hvv, Z.eqb_refl. simpl.
+    rewrite C. reflexivity.
 Qed.
 
-(* whatever happens, what is written or sampled is a prefix of the files: nothing is invented *)
-Lemma file_loop_prefix : forall files free off vol ws ss fr, 0 <= vol ->
-  file_loop files free off vol = (ws, ss, fr) ->
-  exists rest, map (fun x => (x, vol)) files = wfile_pairs ws ++ sample_pairs ss ++ rest
-               /\ (length rest <= length files - 1)%nat
-               /\ (rest <> [] -> (fr = O /\ length ss = 1%nat)).
+Lemma group_files_cons : forall r gv, group_files (r :: gv) = filter (fun s => negb (s =? 0)) (hn_file r) ++ group_files gv.
+Proof. intros. unfold group_files. simpl. now rewrite filter_app. Qed.
+
+Lemma group_files_nonzero : forall gv x, In x (group_files gv) -> x <> 0.
+Proof. intros gv x H. unfold group_files in H. apply filter_In in H as [_ H]. apply negb_true_iff, Z.eqb_neq in H. exact H. Qed.
+
+Lemma filematch_group : forall t vol gv k p v,
+  (forall r, In r gv -> hn_off r = t /\ hn_vol r = vol /\ single_seg (hn_file r) = true) ->
+  cnt (filematch (t, k, p, v)) gv = cnt (fm (t, k, p, v) vol) (group_files gv).
 Proof.
-  induction files; simpl; intros free off vol ws ss fr Hv H.
-  - inversion H; subst. exists []. simpl. repeat split; try reflexivity; try lia; congruence.
-  - destruct free.
-    + inversion H; subst. exists (map (fun x => (x, vol)) files). simpl. rewrite map_length. repeat split; try reflexivity; lia.
-    + destruct (file_loop files free off vol) as [[ws' ss'] fr'] eqn:E. inversion H; subst. clear H.
-      destruct (IHfiles _ _ _ _ _ _ Hv E) as (rest & Eq & Len & Nz). exists rest. simpl.
-      rewrite Z.max_l by lia. rewrite Eq. repeat split; try assumption; try reflexivity.
-      all: try (simpl in *; lia). all: now apply Nz.
+  intros t vol gv k p v. induction gv as [|r gv IH]; intro H; [reflexivity|].
+  rewrite group_files_cons, cnt_app, cnt_cons, IH by (intros; apply H; now right). f_equal.
+  destruct (H r (or_introl eq_refl)) as (Ho & Hvv & Hs).
+  unfold filematch. destruct (hn_file r) as [|x [|]]; try discriminate. rewrite name_empty_single, Ho, Hvv, Z.eqb_refl.
+  simpl. destruct (x =? 0); simpl; [reflexivity|]. unfold cnt. simpl.
+  destruct ((k =? 1) && list_eqb p [x] && (vol =? v)); reflexivity.
 Qed.
 
-Lemma wfile_pairs_map : forall files vol, wfile_pairs (map (fun x => WFile x vol) files) = map (fun x => (x, vol)) files.
-Proof. induction files; simpl; intros; [reflexivity|]. now rewrite IHfiles. Qed.
+Definition group_ok (t : Z) (vg : Z * list hnote) : Prop :=
+  0 <= fst vg /\ forall r, In r (snd vg) -> hn_off r = t /\ hn_vol r = fst vg /\ single_seg (hn_file r) = true.
 
-Lemma perm_interleave : forall (a b c d e f : list (Z * Z)),
-  Permutation ((a ++ b ++ c) ++ (d ++ e ++ f)) ((a ++ d) ++ (b ++ e) ++ (c ++ f)).
+Lemma copied_sub : forall b, existsb (Z.eqb b) copied_bits = (b =? 2) || (b =? 4) || (b =? 8).
+Proof. intro b. unfold copied_bits. simpl. now rewrite orb_false_r, orb_assoc. Qed.
+Lemma bitvals_248 : forall b, (b =? 2) || (b =? 4) || (b =? 8) = true -> existsb (Z.eqb b) bitvals = true.
 Proof.
-  intros. rewrite <- !app_assoc. apply Permutation_app_head.
-  transitivity (b ++ d ++ c ++ e ++ f).
-  - apply Permutation_app_head. apply Permutation_app_swap_app.
-  - transitivity (d ++ b ++ c ++ e ++ f).
-    + apply Permutation_app_swap_app.
-    + apply Permutation_app_head. apply Permutation_app_head. apply Permutation_app_swap_app.
+  intros b H. apply existsb_exists. exists b. split; [|apply Z.eqb_refl].
+  apply orb_prop in H as [H|H]; [apply orb_prop in H as [H|H]|]; apply Z.eqb_eq in H; subst; unfold bitvals; simpl; auto 10.
 Qed.
 
-Definition spare (vgs : list (Z * list hnote)) : nat :=
-  fold_right Nat.add O (map (fun vg => (length (group_files (snd vg)) - 1)%nat) vgs).
-
-(* THE SLOT RULE, for one time and all its volume groups, every number of free notes. *)
-Theorem plan_groups_spec : forall off vgs free ws ss,
-  (forall vg, In vg vgs -> 0 <= fst vg) ->
-  plan_groups off vgs free = (ws, ss) ->
-  (* as many notes are written as the sounds need, or all of them *)
-  length ws = Nat.min (total_need vgs) free
-  (* never more claps / finishes / whistles than the groups have; all of them when everything fits *)
-  /\ (nb 2 ws <= total_bit 2 vgs /\ nb 4 ws <= total_bit 4 vgs /\ nb 8 ws <= total_bit 8 vgs)%nat
+Theorem plan_groups_match : forall t vgs free ws ss k p v,
+  (forall vg, In vg vgs -> group_ok t vg) ->
+  plan_groups t vgs free = (ws, ss) ->
+  (cnt (wbit (t, k, p, v)) ws <= cnt (bitmatch bitvals (t, k, p, v)) (concat (map snd vgs)))%nat
+  /\ (cnt (wfile (t, k, p, v)) ws + cnt (smatch (t, k, p, v)) ss = cnt (filematch (t, k, p, v)) (concat (map snd vgs)))%nat
   /\ ((total_need vgs <= free)%nat ->
-        nb 2 ws = total_bit 2 vgs /\ nb 4 ws = total_bit 4 vgs /\ nb 8 ws = total_bit 8 vgs)
-  (* every (file, volume) written or sampled comes from the groups; what is lost ([rest]) is bounded by the
-     files beyond the first of each group, and is nothing when everything fits (then nothing is sampled either) *)
-  /\ exists rest, Permutation (group_pairs vgs) (wfile_pairs ws ++ sample_pairs ss ++ rest)
-                  /\ (length rest <= spare vgs)%nat
-                  /\ ((total_need vgs <= free)%nat -> rest = [] /\ ss = []).
+        (cnt (bitmatch copied_bits (t, k, p, v)) (concat (map snd vgs)) <= cnt (wbit (t, k, p, v)) ws)%nat /\ ss = [])
+  /\ length ws = Nat.min (total_need vgs) free /\ forallb wloud ws = true.
 Proof.
-  induction vgs as [|[vol g] vgs IH]; intros free ws ss Hv H.
-  - simpl in H. inversion H; subst. unfold total_need, total_bit, nb. simpl. split; [reflexivity|]. split; [lia|]. split; [intros; lia|].
-    exists []. simpl. repeat split; auto.
+  intros t vgs. induction vgs as [|[vol g] vgs IH]; intros free ws ss k p v Hok H.
+  - simpl in H. inversion H; subst. unfold cnt, total_need. simpl. repeat split; try reflexivity; lia.
   - simpl in H.
     destruct (default_loop _ (count_bit 2 g) (count_bit 4 g) (count_bit 8 g) free vol) as [w1 free1] eqn:E1.
-    destruct (file_loop (group_files g) free1 off vol) as [[w2 s2] free2] eqn:E2.
-    destruct (plan_groups off vgs free2) as [w3 s3] eqn:E3.
+    destruct (file_loop (group_files g) free1 t vol) as [[w2 s2] free2] eqn:E2.
+    destruct (plan_groups t vgs free2) as [w3 s3] eqn:E3.
     inversion H; subst; clear H.
-    assert (Hvol : 0 <= vol) by (apply (Hv (vol, g)); now left).
-    apply default_loop_spec in E1 as (L1 & F1 & P1 & B2 & B4 & B8).
-    pose proof (file_loop_len _ _ _ _ _ _ _ E2) as (L2 & F2 & C2 & C4 & C8).
-    destruct (file_loop_prefix _ _ _ _ _ _ _ Hvol E2) as (rest2 & Eq2 & Len2 & Nz2).
-    destruct (IH free2 w3 s3 (fun vg I => Hv vg (or_intror I)) E3) as (L3 & (D2 & D4 & D8) & Fit3 & rest3 & Pm3 & Len3 & Fits3).
-    set (k := Nat.max (count_bit 2 g) (Nat.max (count_bit 4 g) (count_bit 8 g))) in *.
-    unfold total_need, total_bit, spare in *. simpl. fold (need g).
-    assert (Hneed : need g = (k + length (group_files g))%nat) by reflexivity.
-    rewrite !app_length, !nb_app, !wfile_pairs_app, P1. simpl.
-    split; [lia|]. split; [lia|]. split.
-    + intro Hfit. assert (Hfit3 : (fold_right Nat.add 0%nat (map (fun vg => need (snd vg)) vgs) <= free2)%nat) by lia.
-      destruct (Fit3 Hfit3) as (G2 & G4 & G8). lia.
-    + exists (rest2 ++ rest3). split; [|split].
-      * unfold group_pairs in *. simpl. rewrite Eq2.
-        eapply Permutation_trans; [apply Permutation_app_head; exact Pm3|].
-        unfold sample_pairs. rewrite map_app. apply perm_interleave.
-      * rewrite app_length. lia.
-      * intro Hfit. assert (Hfit3 : (fold_right Nat.add 0%nat (map (fun vg => need (snd vg)) vgs) <= free2)%nat) by lia.
-        destruct (Fits3 Hfit3) as (-> & ->).
-        assert (Hf : (length (group_files g) <= free1)%nat) by lia.
-        rewrite (file_loop_fits _ _ off vol Hf) in E2. inversion E2; subst.
-        simpl in Eq2. rewrite wfile_pairs_map, Z.max_l in Eq2 by lia.
-        rewrite <- (app_nil_r (map _ (group_files g))) in Eq2 at 1. apply app_inv_head in Eq2. subst rest2. auto.
+    destruct (Hok (vol, g) (or_introl eq_refl)) as [Hvol Hg]. simpl in Hvol, Hg.
+    pose proof (default_loop_wbit _ _ _ _ _ _ _ _ t k p v E1) as W1.
+    destruct (default_loop_other _ _ _ _ _ _ _ _ E1 (Nat.le_refl _)) as (F1 & L1 & N1 & R1).
+    destruct (file_loop_match _ _ _ _ _ _ _ k p v Hvol (group_files_nonzero g) E2) as (A2 & B2 & L2 & N2 & R2 & G2).
+    destruct (IH free2 w3 s3 k p v (fun vg I => Hok vg (or_intror I)) E3) as (I1 & I2 & I3 & I4 & I5).
+    assert (Hg2 : forall r, In r g -> hn_off r = t /\ hn_vol r = vol) by (intros r Hr; destruct (Hg r Hr) as (?&?&?); auto).
+    pose proof (bitmatch_group bitvals t vol g k p v Hg2) as S1.
+    pose proof (bitmatch_group copied_bits t vol g k p v Hg2) as S2.
+    pose proof (filematch_group t vol g k p v Hg) as S3.
+    simpl map. simpl concat. rewrite !cnt_app, !app_length, !forallb_app, L1, L2, I5.
+    rewrite (F1 (t, k, p, v)), B2, S1, S2, S3, W1. rewrite Z.max_l by lia.
+    unfold total_need in *. simpl. fold (need g).
+    set (K := Nat.max (count_bit 2 g) (Nat.max (count_bit 4 g) (count_bit 8 g))) in *.
+    assert (Hneed : need g = (K + length (group_files g))%nat) by reflexivity.
+    set (TN := fold_right Nat.add 0%nat (map (fun vg => need (snd vg)) vgs)) in *.
+    split; [|split; [|split; [|split]]]; try reflexivity.
+    + destruct ((k =? 0) && (vol =? v)); [|lia]. destruct p as [|b [|]]; try lia.
+      unfold bitsel.
+      destruct (b =? 2) eqn:E2'; [apply Z.eqb_eq in E2'; subst b; simpl; lia|].
+      destruct (b =? 4) eqn:E4'; [apply Z.eqb_eq in E4'; subst b; simpl; lia|].
+      destruct (b =? 8) eqn:E8'; [apply Z.eqb_eq in E8'; subst b; simpl; lia|]. lia.
+    + lia.
+    + intro Hfit. assert (Hfit3 : (TN <= free2)%nat) by lia.
+      destruct (I3 Hfit3) as [J1 J2]. assert (Hf : (length (group_files g) <= free1)%nat) by lia.
+      rewrite (G2 Hf), J2. split; [|reflexivity].
+      destruct ((k =? 0) && (vol =? v)); [|lia]. destruct p as [|b [|]]; try lia.
+      try rewrite copied_sub. unfold bitsel.
+      destruct (b =? 2) eqn:E2'; [apply Z.eqb_eq in E2'; subst b; simpl; lia|].
+      destruct (b =? 4) eqn:E4'; [apply Z.eqb_eq in E4'; subst b; simpl; lia|].
+      destruct (b =? 8) eqn:E8'; [apply Z.eqb_eq in E8'; subst b; simpl; lia|]. simpl. lia.
+    + lia.
 Qed.
 
-(* ================================================================== the guarded statements, at the level of one time
-   PARTIAL: the three theorems below are the property's guarantees for the sounds of ONE time (all volume groups of
-   that time, any number of target notes at that time), proved for all inputs.  What is NOT proved is their lifting
-   to whole charts, i.e. [no_invention src out], [bounded src tgt out] and [named_conserved src out] for
-   [hitsound_copy psrc ptgt src tgt = Some out] under [wf], [tgt_silent], [no_semicolon] (and [no_multi_overflow]):
-   that needs (a) run_groups touches exactly the rows of each source time, in frame order (apply_at / slots_at
-   locality, distinct group keys from usort), (b) the atoms of the written rows are the atoms of the writes when the
-   target rows are silent, (c) group_by partitions the sorted loud source rows so that group_pairs / total_bit /
-   total_need are the per-(time, volume) counts of the specification ([at_tv], [demand]).  On whole charts the
-   statements are checked by the sound-and-complete oracle [specb] on every generated pair instead. *)
-
-Lemma spare_zero : forall vgs, (forall vg, In vg vgs -> (length (group_files (snd vg)) <= 1)%nat) -> spare vgs = O.
+(* ================================================================== plumbing between charts, frames and groups *)
+Lemma filter_split_perm : forall (f : hnote -> bool) l,
+  Permutation (filter f l ++ filter (fun r => negb (f r)) l) l.
 Proof.
-  induction vgs; intros H; [reflexivity|]. unfold spare in *. simpl.
-  rewrite IHvgs by (intros; apply H; now right). specialize (H a (or_introl eq_refl)). lia.
+  intros f l. induction l as [|a l IH]; simpl; [constructor|]. destruct (f a); simpl.
+  - now constructor.
+  - apply Permutation_sym, Permutation_cons_app, Permutation_sym, IH.
 Qed.
 
-(* named samples: when everything fits, or no volume group has two named samples, every (file, volume) of the
-   source groups is written on a note or becomes an event sample, and nothing else is *)
-Theorem hs_named_conserved_guarded_partial : forall off vgs free ws ss,
-  (forall vg, In vg vgs -> 0 <= fst vg) ->
-  plan_groups off vgs free = (ws, ss) ->
-  ((total_need vgs <= free)%nat \/ (forall vg, In vg vgs -> (length (group_files (snd vg)) <= 1)%nat)) ->
-  Permutation (group_pairs vgs) (wfile_pairs ws ++ sample_pairs ss).
+Lemma cnt_map : forall A B (f : A -> B) (m : B -> bool) l, cnt m (map f l) = cnt (fun x => m (f x)) l.
+Proof. intros. induction l as [|a l IH]; [reflexivity|]. simpl. rewrite !cnt_cons, IH. reflexivity. Qed.
+
+Lemma cnt_at_time : forall (m : hnote -> bool) t l,
+  (forall r, m r = true -> hn_off r = t) -> cnt m l = cnt m (at_time t l).
 Proof.
-  intros off vgs free ws ss Hv H G.
-  destruct (plan_groups_spec _ _ _ _ _ Hv H) as (_ & _ & _ & rest & P & L & F).
-  assert (rest = []) as ->.
-  { destruct G as [G|G]; [now destruct (F G)|]. rewrite (spare_zero _ G) in L. destruct rest; [reflexivity | simpl in L; lia]. }
-  now rewrite !app_nil_r in P.
+  intros m t l H. unfold at_time. rewrite cnt_filter. apply cnt_ext_in. intros r _.
+  destruct (m r) eqn:E; [rewrite (H r E), Z.eqb_refl; reflexivity | now rewrite andb_false_r].
 Qed.
 
-(* no invention, one time: the files written or sampled are a sub-multiset of the groups' files (with volume), and
-   no more claps / finishes / whistles are written than the groups have *)
-Theorem hs_no_invention_partial : forall off vgs free ws ss,
-  (forall vg, In vg vgs -> 0 <= fst vg) ->
-  plan_groups off vgs free = (ws, ss) ->
-  (exists rest, Permutation (group_pairs vgs) ((wfile_pairs ws ++ sample_pairs ss) ++ rest))
-  /\ (nb 2 ws <= total_bit 2 vgs)%nat /\ (nb 4 ws <= total_bit 4 vgs)%nat /\ (nb 8 ws <= total_bit 8 vgs)%nat.
+Lemma cnt_disjoint_or : forall A (p q : A -> bool) l,
+  (forall x, In x l -> p x && q x = false) -> (cnt p l + cnt q l)%nat = cnt (fun x => p x || q x) l.
 Proof.
-  intros off vgs free ws ss Hv H.
-  destruct (plan_groups_spec _ _ _ _ _ Hv H) as (_ & (B2 & B4 & B8) & _ & rest & P & _ & _).
-  split; [exists rest; now rewrite <- app_assoc | auto].
+  intros A p q l H. induction l as [|a l IH]; [reflexivity|]. rewrite !cnt_cons, <- IH by (intros; apply H; now right).
+  specialize (H a (or_introl eq_refl)). destruct (p a), (q a); simpl in *; try discriminate; lia.
 Qed.
 
-(* as many as the notes can hold, one time: min(need, notes) notes are written; when everything fits every clap,
-   finish and whistle is written and nothing overflows *)
-Theorem hs_bounded_partial : forall off vgs free ws ss,
-  (forall vg, In vg vgs -> 0 <= fst vg) ->
-  plan_groups off vgs free = (ws, ss) ->
-  length ws = Nat.min (total_need vgs) free
-  /\ ((total_need vgs <= free)%nat ->
-      nb 2 ws = total_bit 2 vgs /\ nb 4 ws = total_bit 4 vgs /\ nb 8 ws = total_bit 8 vgs /\ ss = []).
+Lemma concat_groups_cnt : forall (key : hnote -> Z) (m : hnote -> bool) rows keys, NoDup keys ->
+  cnt m (concat (map (fun k => filter (fun r => key r =? k) rows) keys))
+  = cnt (fun r => existsb (Z.eqb (key r)) keys && m r) rows.
 Proof.
-  intros off vgs free ws ss Hv H.
-  destruct (plan_groups_spec _ _ _ _ _ Hv H) as (L & _ & Fit & rest & _ & _ & F).
-  split; [exact L|]. intro G. destruct (Fit G) as (A & B & C). destruct (F G) as (_ & ->). auto.
+  intros key m rows keys. induction keys as [|k keys IH]; intro ND.
+  - simpl. symmetry. apply cnt_false. reflexivity.
+  - inversion ND as [|? ? Hn ND']; subst. simpl. rewrite cnt_app, IH, cnt_filter by assumption.
+    rewrite cnt_disjoint_or.
+    + apply cnt_ext_in. intros r _. destruct (key r =? k), (existsb (Z.eqb (key r)) keys), (m r); reflexivity.
+    + intros r _. destruct (key r =? k) eqn:E; [|reflexivity]. apply Z.eqb_eq in E. rewrite E.
+      rewrite (existsb_notin _ _ Hn). simpl. now rewrite andb_false_r.
 Qed.
 
-(* the defect, at the same level: with three named samples of one volume and one note, one (file, volume) is lost *)
-Theorem hs_slot_rule_loses_refuted :
-  exists off vgs free ws ss, plan_groups off vgs free = (ws, ss)
-    /\ ~ Permutation (group_pairs vgs) (wfile_pairs ws ++ sample_pairs ss).
+Lemma group_by_concat_cnt : forall key (m : hnote -> bool) rows,
+  cnt m (concat (map snd (group_by key rows))) = cnt m rows.
 Proof.
-  exists 0, [(30, [mkN 0 0 None 0 0 0 0 30 [1]; mkN 0 1 None 0 0 0 0 30 [2]; mkN 0 2 None 0 0 0 0 30 [3]])], 1%nat.
-  eexists. eexists. split; [vm_compute; reflexivity|].
-  intro P. apply Permutation_length in P. vm_compute in P. discriminate.
+  intros key m rows. unfold group_by. rewrite map_map. simpl.
+  rewrite concat_groups_cnt by (apply sorted_lt_NoDup, usort_sorted).
+  apply cnt_ext_in. intros r Hr.
+  assert (existsb (Z.eqb (key r)) (usort (map key rows)) = true) as ->; [|reflexivity].
+  apply existsb_exists. exists (key r). split; [|apply Z.eqb_refl]. apply usort_in. now apply in_map.
+Qed.
+
+(* matchers look only at time, volume, hitsound set and file *)
+Lemma bitmatch_set_len : forall bits a l r, bitmatch bits a (set_len l r) = bitmatch bits a r.
+Proof. intros bits [[[t k] p] v] l r. reflexivity. Qed.
+Lemma filematch_set_len : forall a l r, filematch a (set_len l r) = filematch a r.
+Proof. intros [[[t k] p] v] l r. reflexivity. Qed.
+
+Lemma bits_nonzero : forall bits, (forall b, In b bits -> In b bitvals) ->
+  forall a r, bitmatch bits a r = true -> hn_hs r <> 0.
+Proof.
+  intros bits Hsub [[[t k] p] v] r H Hz. unfold bitmatch in H. rewrite Hz in H.
+  destruct p as [|b [|]]; rewrite ?andb_false_r in H; try discriminate.
+  apply andb_prop in H as [_ H]. apply andb_prop in H as [H1 H2].
+  apply existsb_exists in H1 as [x [Hin Hx]]. apply Z.eqb_eq in Hx. subst x.
+  assert (existsb (Z.eqb b) bitvals = true) by (apply existsb_exists; exists b; split; [auto | apply Z.eqb_refl]).
+  rewrite (bitvals_nonzero _ H) in H2. discriminate.
+Qed.
+Lemma copied_in_bitvals : forall b, In b copied_bits -> In b bitvals.
+Proof. unfold copied_bits, bitvals. simpl. intuition. Qed.
+
+Lemma bitmatch_loud : forall bits, (forall b, In b bits -> In b bitvals) ->
+  forall a r, bitmatch bits a r = true -> loud r = true.
+Proof.
+  intros bits Hs a r H. apply (bits_nonzero bits Hs) in H. unfold loud. apply Z.eqb_neq in H. rewrite H. simpl.
+  rewrite !orb_true_r. reflexivity.
+Qed.
+Lemma filematch_loud : forall a r, filematch a r = true -> loud r = true.
+Proof.
+  intros [[[t k] p] v] r H. unfold filematch in H. repeat (apply andb_prop in H as [H _]).
+  unfold loud. rewrite H. now rewrite !orb_true_r.
+Qed.
+Lemma bitmatch_time : forall bits t k p v r, bitmatch bits (t, k, p, v) r = true -> hn_off r = t.
+Proof. intros. unfold bitmatch in H. repeat (apply andb_prop in H as [H _]). now apply Z.eqb_eq. Qed.
+Lemma filematch_time : forall t k p v r, filematch (t, k, p, v) r = true -> hn_off r = t.
+Proof. intros. unfold filematch in H. do 3 (apply andb_prop in H as [H _]). apply andb_prop in H as [_ H]. now apply Z.eqb_eq. Qed.
+
+Lemma all_notes_df_cnt : forall (m : hnote -> bool) src,
+  (forall l r, m (set_len l r) = m r) -> cnt m (notes_df src) = cnt m (all_notes src).
+Proof.
+  intros m src H. unfold notes_df, all_notes. rewrite !cnt_app, cnt_map. f_equal. apply cnt_ext_in. intros; apply H.
+Qed.
+
+(* from the chart to the rows of one time in the sorted loud source frame *)
+Lemma src_to_group : forall (m : hnote -> bool) src s t,
+  Permutation (filter loud (notes_df src)) s ->
+  (forall l r, m (set_len l r) = m r) -> (forall r, m r = true -> loud r = true) -> (forall r, m r = true -> hn_off r = t) ->
+  cnt m (all_notes src) = cnt m (at_time t s).
+Proof.
+  intros m src s t P H1 H2 H3.
+  rewrite <- (all_notes_df_cnt m src H1), <- (cnt_at_time m t s H3), <- (cnt_perm _ m _ _ P), cnt_filter.
+  apply cnt_ext_in. intros r _. destruct (m r) eqn:E; [now rewrite (H2 r E) | now rewrite andb_false_r].
+Qed.
+
+Lemma out_to_frame : forall (m : hnote -> bool) df smp,
+  cnt m (all_notes (mkM (filter is_hit df) (filter (fun r => negb (is_hit r)) df) smp)) = cnt m df.
+Proof. intros. unfold all_notes. simpl. apply cnt_perm, filter_split_perm. Qed.
+
+(* the rows of the sorted source frame come from source notes *)
+Lemma src_rows_ok : forall src tgt s r,
+  wf src tgt = true -> no_semicolon src = true -> Permutation (filter loud (notes_df src)) s -> In r s ->
+  0 <= hn_vol r /\ single_seg (hn_file r) = true.
+Proof.
+  intros src tgt s r Hwf Hns P Hin.
+  apply (Permutation_in _ (Permutation_sym P)) in Hin. apply filter_In in Hin as [Hin _].
+  unfold wf in Hwf. apply andb_prop in Hwf as [Hwf _]. apply andb_prop in Hwf as [Hwf _].
+  unfold no_semicolon in Hns. rewrite forallb_forall in Hwf, Hns. unfold all_notes in *.
+  unfold notes_df in Hin. apply in_app_or in Hin as [Hin|Hin].
+  - apply in_map_iff in Hin as [r0 [<- Hin]]. simpl.
+    assert (I : In r0 (hm_hits src ++ hm_holds src)) by (apply in_or_app; now left).
+    specialize (Hwf _ I). specialize (Hns _ I). unfold src_note_ok in Hwf.
+    apply andb_prop in Hwf as [Hwf _]. apply andb_prop in Hwf as [Hwf _]. apply Z.leb_le in Hwf. auto.
+  - assert (I : In r (hm_hits src ++ hm_holds src)) by (apply in_or_app; now right).
+    specialize (Hwf _ I). specialize (Hns _ I). unfold src_note_ok in Hwf.
+    apply andb_prop in Hwf as [Hwf _]. apply andb_prop in Hwf as [Hwf _]. apply Z.leb_le in Hwf. auto.
+Qed.
+
+Lemma groups_ok : forall t g,
+  (forall r, In r g -> hn_off r = t /\ 0 <= hn_vol r /\ single_seg (hn_file r) = true) ->
+  forall vg, In vg (group_by hn_vol g) -> group_ok t vg.
+Proof.
+  intros t g H [v gv] Hin. apply group_by_in in Hin as [-> Hk]. unfold group_ok. simpl.
+  apply in_map_iff in Hk as [r0 [<- Hr0]]. split; [apply (H r0 Hr0)|].
+  intros r Hr. apply filter_In in Hr as [Hr E]. apply Z.eqb_eq in E. destruct (H r Hr) as (A & B & C). auto.
+Qed.
+
+(* the target frame is silent *)
+Lemma tgt_frame_silent : forall tgt df t r,
+  Permutation (map reset_note (notes_df tgt)) df -> In r (at_time t df) -> silent_at t r.
+Proof.
+  intros tgt df t r P Hin. unfold at_time in Hin. apply filter_In in Hin as [Hin E]. apply Z.eqb_eq in E.
+  apply (Permutation_in _ (Permutation_sym P)) in Hin. apply in_map_iff in Hin as [r0 [<- _]].
+  unfold silent_at. simpl in *. auto.
+Qed.
+
+(* event samples of a plan carry the time of the plan *)
+Lemma file_loop_samples_off : forall files free off vol ws ss fr s,
+  file_loop files free off vol = (ws, ss, fr) -> In s ss -> hs_off s = off.
+Proof.
+  induction files as [|x files IH]; intros free off vol ws ss fr s H Hin; simpl in H.
+  - inversion H; subst. contradiction.
+  - destruct free as [|free].
+    + destruct (file_loop files 0 off vol) as [[ws' ss'] fr'] eqn:E. inversion H; subst.
+      destruct Hin as [<-|Hin]; [reflexivity | eapply IH; eauto].
+    + destruct (file_loop files free off vol) as [[ws' ss'] fr'] eqn:E. inversion H; subst. eapply IH; eauto.
+Qed.
+Lemma plan_groups_samples_off : forall off vgs free ws ss s,
+  plan_groups off vgs free = (ws, ss) -> In s ss -> hs_off s = off.
+Proof.
+  induction vgs as [|[vol g] vgs IH]; intros free ws ss s H Hin; simpl in H.
+  - inversion H; subst. contradiction.
+  - destruct (default_loop _ _ _ _ free vol) as [w1 free1].
+    destruct (file_loop (group_files g) free1 off vol) as [[w2 s2] free2] eqn:E2.
+    destruct (plan_groups off vgs free2) as [w3 s3] eqn:E3. inversion H; subst.
+    apply in_app_or in Hin as [Hin|Hin]; [eapply file_loop_samples_off; eauto | eapply IH; eauto].
+Qed.
+
+Lemma smatch_time : forall t k p v s, smatch (t, k, p, v) s = true -> hs_off s = t.
+Proof. intros. unfold smatch in H. do 3 (apply andb_prop in H as [H _]). apply andb_prop in H as [_ H]. now apply Z.eqb_eq. Qed.
+
+Lemma samples_other : forall df (ogs : list (Z * list hnote)) t k p v,
+  ~ In t (map fst ogs) -> cnt (smatch (t, k, p, v)) (flat_map (fun og => snd (writes_for df og)) ogs) = O.
+Proof.
+  intros df ogs t k p v Hn. apply cnt_false. intros s Hs. apply in_flat_map in Hs as [og [Hog Hs]].
+  destruct (smatch (t, k, p, v) s) eqn:E; [|reflexivity]. exfalso. apply smatch_time in E.
+  unfold writes_for in Hs. destruct (plan_groups (fst og) (group_by hn_vol (snd og)) (slots_at (fst og) df)) as [ws ss] eqn:Ep.
+  simpl in Hs. apply (plan_groups_samples_off _ _ _ _ _ _ Ep) in Hs. apply Hn. rewrite <- E, Hs. now apply in_map.
+Qed.
+
+Lemma samples_single : forall df (ogs : list (Z * list hnote)) t g k p v,
+  NoDup (map fst ogs) -> In (t, g) ogs ->
+  cnt (smatch (t, k, p, v)) (flat_map (fun og => snd (writes_for df og)) ogs)
+  = cnt (smatch (t, k, p, v)) (snd (writes_for df (t, g))).
+Proof.
+  intros df ogs t g k p v. induction ogs as [|og ogs IH]; intros ND Hin; [contradiction|].
+  inversion ND as [|? ? Hn ND']; subst. simpl. rewrite cnt_app. destruct Hin as [->|Hin].
+  - rewrite (samples_other df ogs t k p v Hn). lia.
+  - rewrite (IH ND' Hin).
+    assert (Hne : fst og <> t) by (intro E; apply Hn; rewrite E; change t with (fst (t, g)); now apply in_map).
+    assert (cnt (smatch (t, k, p, v)) (snd (writes_for df og)) = O) as ->; [|reflexivity].
+    pose proof (samples_other df [og] t k p v) as X. simpl in X. rewrite app_nil_r in X. apply X. intuition.
+Qed.
+
+(* ================================================================== the routine, seen from one time *)
+Lemma copy_decompose : forall psrc ptgt src tgt out,
+  hitsound_copy psrc ptgt src tgt = Some out ->
+  exists s df df' smp',
+    Permutation (filter loud (notes_df src)) s /\ Permutation (map reset_note (notes_df tgt)) df
+    /\ run_groups (group_by hn_off s) (df, []) = (df', smp')
+    /\ out = mkM (filter is_hit df') (filter (fun r => negb (is_hit r)) df') smp'.
+Proof.
+  intros psrc ptgt src tgt out H. unfold hitsound_copy in H.
+  destruct (sort_with psrc (filter loud (notes_df src))) as [s|] eqn:Es; [|discriminate].
+  destruct (sort_with ptgt (map reset_note (notes_df tgt))) as [df|] eqn:Ed; [|discriminate].
+  destruct (run_groups (group_by hn_off s) (df, [])) as [df' smp'] eqn:Er. inversion H; subst.
+  exists s, df, df', smp'. split; [eapply sort_with_Permutation; eauto|]. split; [eapply sort_with_Permutation; eauto|]. split; [exact Er | reflexivity].
+Qed.
+
+Definition plan_at (s df : list hnote) (t : Z) : list write * list hsample :=
+  plan_groups t (group_by hn_vol (at_time t s)) (slots_at t df).
+
+Lemma time_view : forall s df df' smp' t,
+  run_groups (group_by hn_off s) (df, []) = (df', smp') ->
+  at_time t df' = wprefix (fst (plan_at s df t)) (at_time t df)
+  /\ forall k p v, cnt (smatch (t, k, p, v)) smp' = cnt (smatch (t, k, p, v)) (snd (plan_at s df t)).
+Proof.
+  intros s df df' smp' t H.
+  destruct (run_groups_local _ _ _ _ _ (group_by_NoDup hn_off s) H) as (A & B & C). simpl in C. subst smp'.
+  destruct (in_dec Z.eq_dec t (map hn_off s)) as [I|N].
+  - pose proof (group_by_has hn_off s t I) as Hin. fold (at_time t s) in Hin.
+    split.
+    + apply (B _ Hin).
+    + intros k p v. apply (samples_single df _ t (at_time t s) k p v (group_by_NoDup hn_off s) Hin).
+  - assert (Hk : ~ In t (map fst (group_by hn_off s))) by (rewrite group_by_keys, usort_in; exact N).
+    unfold plan_at. rewrite (at_time_nil t s N). simpl. split.
+    + rewrite (A t Hk). destruct (at_time t df); reflexivity.
+    + intros k p v. apply samples_other. exact Hk.
+Qed.
+
+Section OneTime.
+  Variables (src tgt : hmap) (s df df' : list hnote) (smp' : list hsample).
+  Hypothesis Hwf : wf src tgt = true.
+  Hypothesis Hns : no_semicolon src = true.
+  Hypothesis Ps : Permutation (filter loud (notes_df src)) s.
+  Hypothesis Pd : Permutation (map reset_note (notes_df tgt)) df.
+  Hypothesis Hrun : run_groups (group_by hn_off s) (df, []) = (df', smp').
+
+  Lemma groups_ok_at : forall t vg, In vg (group_by hn_vol (at_time t s)) -> group_ok t vg.
+  Proof.
+    intro t. apply groups_ok. intros r Hr. unfold at_time in Hr. apply filter_In in Hr as [Hr E]. apply Z.eqb_eq in E.
+    destruct (src_rows_ok src tgt s r Hwf Hns Ps Hr). auto.
+  Qed.
+
+  Lemma one_time : forall t k p v,
+    let a := (t, k, p, v) in
+    let need_t := total_need (group_by hn_vol (at_time t s)) in
+    (cnt (bitmatch bitvals a) df' <= cnt (bitmatch bitvals a) (all_notes src))%nat
+    /\ (cnt (filematch a) df' + cnt (smatch a) smp' = cnt (filematch a) (all_notes src))%nat
+    /\ ((need_t <= slots_at t df)%nat ->
+          (cnt (bitmatch copied_bits a) (all_notes src) <= cnt (bitmatch bitvals a) df')%nat
+          /\ cnt (smatch a) smp' = O)
+    /\ cnt sounding (at_time t df') = Nat.min need_t (slots_at t df).
+  Proof.
+    intros t k p v a need_t.
+    destruct (time_view _ _ _ _ t Hrun) as [V1 V2].
+    unfold plan_at in *. destruct (plan_groups t (group_by hn_vol (at_time t s)) (slots_at t df)) as [ws ss] eqn:Ep.
+    simpl in V1, V2.
+    destruct (plan_groups_match t _ _ _ _ k p v (groups_ok_at t) Ep) as (M1 & M2 & M3 & M4 & M5).
+    rewrite !group_by_concat_cnt in M1, M2, M3.
+    assert (Hsil : forall r, In r (at_time t df) -> silent_at t r) by (intros r Hr; eapply tgt_frame_silent; eauto).
+    assert (Hlen : (length ws <= length (at_time t df))%nat) by (rewrite M4, <- slots_at_eq; lia).
+    (* the written rows *)
+    assert (Wb : cnt (bitmatch bitvals a) df' = cnt (wbit a) ws).
+    { rewrite (cnt_at_time _ t df') by (intros r; apply bitmatch_time). rewrite V1.
+      apply (wprefix_cnt t); auto. - intros r Hr. eapply bitmatch_silent; eauto. - intros w r Hr. now apply bitmatch_written. }
+    assert (Wf : cnt (filematch a) df' = cnt (wfile a) ws).
+    { rewrite (cnt_at_time _ t df') by (intros r; apply filematch_time). rewrite V1.
+      apply (wprefix_cnt t); auto. - intros r Hr. eapply filematch_silent; eauto. - intros w r Hr. now apply filematch_written. }
+    assert (Ws : cnt sounding (at_time t df') = length ws).
+    { rewrite V1. rewrite (wprefix_cnt t sounding wloud); auto.
+      - unfold cnt. clear - M5. induction ws as [|w ws IH]; [reflexivity|]. simpl in *. apply andb_prop in M5 as [-> M5]. simpl. now rewrite IH.
+      - apply sounding_silent. - intros w r Hr. eapply sounding_written; eauto. }
+    (* the source rows *)
+    assert (Sb : cnt (bitmatch bitvals a) (all_notes src) = cnt (bitmatch bitvals a) (at_time t s)).
+    { apply src_to_group; [exact Ps | intros; apply bitmatch_set_len | intros r Hr; exact (bitmatch_loud bitvals (fun b H => H) a r Hr) | intros r; apply bitmatch_time]. }
+    assert (Sc : cnt (bitmatch copied_bits a) (all_notes src) = cnt (bitmatch copied_bits a) (at_time t s)).
+    { apply src_to_group; [exact Ps | intros; apply bitmatch_set_len | intros r Hr; exact (bitmatch_loud copied_bits copied_in_bitvals a r Hr) | intros r; apply bitmatch_time]. }
+    assert (Sf : cnt (filematch a) (all_notes src) = cnt (filematch a) (at_time t s)).
+    { apply src_to_group; [exact Ps | intros; apply filematch_set_len | intros r Hr; exact (filematch_loud a r Hr) | intros r; apply filematch_time]. }
+    subst a need_t. rewrite Wb, Wf, Ws, Sb, Sc, Sf, (V2 k p v).
+    split; [exact M1|]. split; [exact M2|]. split; [|exact M4].
+    intro Hfit. destruct (M3 Hfit) as [M3a ->]. split; [exact M3a | reflexivity].
+  Qed.
+End OneTime.
+
+(* ================================================================== hitsound sets written are small *)
+Definition wval_ok (w : write) : Prop := match w with WBits val _ => 0 <= val < 65536 | WFile _ _ => True end.
+
+Lemma default_loop_vals : forall k c f w free vol ws fr,
+  default_loop k c f w free vol = (ws, fr) -> Forall wval_ok ws.
+Proof.
+  induction k as [|k IH]; intros c f w free vol ws fr H; simpl in H.
+  - inversion H; subst. constructor.
+  - destruct free as [|free]; [inversion H; subst; constructor|].
+    destruct (default_loop k (Nat.pred c) (Nat.pred f) (Nat.pred w) free vol) as [ws' fr'] eqn:E. inversion H; subst.
+    constructor; [|eapply IH; eauto]. simpl. destruct (pos c), (pos f), (pos w); simpl; lia.
+Qed.
+Lemma file_loop_vals : forall files free off vol ws ss fr,
+  file_loop files free off vol = (ws, ss, fr) -> Forall wval_ok ws.
+Proof.
+  induction files as [|x files IH]; intros free off vol ws ss fr H; simpl in H.
+  - inversion H; subst. constructor.
+  - destruct free as [|free].
+    + destruct (file_loop files 0 off vol) as [[ws' ss'] fr'] eqn:E. inversion H; subst. eapply IH; eauto.
+    + destruct (file_loop files free off vol) as [[ws' ss'] fr'] eqn:E. inversion H; subst.
+      constructor; [exact I | eapply IH; eauto].
+Qed.
+Lemma plan_groups_vals : forall off vgs free ws ss, plan_groups off vgs free = (ws, ss) -> Forall wval_ok ws.
+Proof.
+  induction vgs as [|[vol g] vgs IH]; intros free ws ss H; simpl in H.
+  - inversion H; subst. constructor.
+  - destruct (default_loop _ _ _ _ free vol) as [w1 free1] eqn:E1.
+    destruct (file_loop (group_files g) free1 off vol) as [[w2 s2] free2] eqn:E2.
+    destruct (plan_groups off vgs free2) as [w3 s3] eqn:E3. inversion H; subst.
+    apply Forall_app; split; [eapply default_loop_vals; eauto|].
+    apply Forall_app; split; [eapply file_loop_vals; eauto | eapply IH; eauto].
+Qed.
+
+Lemma wprefix_range : forall t ws rows,
+  Forall wval_ok ws -> (forall r, In r rows -> silent_at t r) ->
+  forall r, In r (wprefix ws rows) -> hs_in_range r = true.
+Proof.
+  intros t ws rows. revert ws. induction rows as [|r0 rows IH]; intros ws Hw Hs r Hin; [contradiction|].
+  destruct ws as [|w ws].
+  - simpl in Hin. destruct (Hs r Hin) as (_ & Hz & _). unfold hs_in_range. rewrite Hz. reflexivity.
+  - simpl in Hin. inversion Hw; subst. destruct Hin as [<-|Hin].
+    + destruct (Hs r0 (or_introl eq_refl)) as (_ & Hz & _).
+      destruct w as [val vol|f vol]; unfold hs_in_range, do_write; cbn [hn_hs].
+      * simpl in H1. apply andb_true_intro. split; [apply Z.leb_le | apply Z.ltb_lt]; lia.
+      * rewrite Hz. reflexivity.
+    + eapply IH; eauto. intros; apply Hs; now right.
+Qed.
+
+(* ================================================================== WHOLE CHARTS *)
+Section Whole.
+  Variables (psrc ptgt : list nat) (src tgt out : hmap).
+  Hypothesis Hwf : wf src tgt = true.
+  Hypothesis Hns : no_semicolon src = true.
+  Hypothesis Hrun : hitsound_copy psrc ptgt src tgt = Some out.
+
+  (* every sound of the result was in the source at that time, with multiplicity *)
+  Theorem hs_no_invention : no_invention src out.
+  Proof.
+    destruct (copy_decompose _ _ _ _ _ Hrun) as (s & df & df' & smp' & Ps & Pd & Hr & ->).
+    split.
+    - intros [[[t k] p] v].
+      destruct (one_time src tgt s df df' smp' Hwf Hns Ps Pd Hr t k p v) as (A & B & _ & _).
+      rewrite (count_app atom_eqb). unfold note_atoms.
+      pose proof (count_note_atoms_rows (t, k, p, v)) as N. pose proof (count_sample_atoms_rows (t, k, p, v)) as S.
+      unfold acount in N, S. rewrite !N, S. rewrite !out_to_frame. simpl hm_samples. lia.
+    - apply forallb_forall. intros r Hin. unfold all_notes in Hin. simpl in Hin.
+      assert (Hin' : In r df').
+      { apply in_app_or in Hin as [Hin|Hin]; apply filter_In in Hin; tauto. }
+      assert (Hat : In r (at_time (hn_off r) df')) by (unfold at_time; apply filter_In; split; [exact Hin' | apply Z.eqb_refl]).
+      destruct (time_view _ _ _ _ (hn_off r) Hr) as [V1 _]. rewrite V1 in Hat.
+      unfold plan_at in Hat. destruct (plan_groups (hn_off r) (group_by hn_vol (at_time (hn_off r) s)) (slots_at (hn_off r) df)) as [ws ss] eqn:Ep.
+      simpl in Hat. eapply wprefix_range; [eapply plan_groups_vals; eauto | | exact Hat].
+      intros r1 Hr1. eapply tgt_frame_silent; eauto.
+  Qed.
+
+  (* every named sample of the source is on a result note or an event sample at that time — and nothing else is *)
+  Theorem hs_named_conserved : named_conserved src out.
+  Proof.
+    destruct (copy_decompose _ _ _ _ _ Hrun) as (s & df & df' & smp' & Ps & Pd & Hr & ->).
+    intros [[[t k] p] v].
+    destruct (one_time src tgt s df df' smp' Hwf Hns Ps Pd Hr t k p v) as (_ & B & _ & _).
+    rewrite (count_app atom_eqb). unfold named_atoms.
+    pose proof (count_named_atoms_rows (t, k, p, v)) as N. pose proof (count_sample_atoms_rows (t, k, p, v)) as S.
+    unfold acount in N, S. rewrite !N, S. rewrite out_to_frame. simpl hm_samples. lia.
+  Qed.
+End Whole.
+
+(* ================================================================== demand of the specification = need of the model *)
+Lemma dedup_in : forall l x, In x (dedup l) <-> In x l.
+Proof.
+  induction l as [|a l IH]; simpl; intros; [tauto|].
+  destruct (existsb (Z.eqb a) l) eqn:E.
+  - rewrite IH. split; [auto|]. intros [<-|H]; [|auto].
+    apply existsb_exists in E as [y [Hy Ey]]. apply Z.eqb_eq in Ey. now subst.
+  - simpl. rewrite IH. tauto.
+Qed.
+Lemma dedup_NoDup : forall l, NoDup (dedup l).
+Proof.
+  induction l as [|a l IH]; simpl; [constructor|].
+  destruct (existsb (Z.eqb a) l) eqn:E; [exact IH|]. constructor; [|exact IH].
+  rewrite dedup_in. intro Hin. assert (existsb (Z.eqb a) l = true) by (apply existsb_exists; exists a; split; [auto | apply Z.eqb_refl]). congruence.
+Qed.
+
+Definition sumf (f : Z -> nat) (l : list Z) : nat := fold_right Nat.add O (map f l).
+
+Lemma sumf_zero : forall f l, (forall x, In x l -> f x = O) -> sumf f l = O.
+Proof. intros f l H. induction l as [|a l IH]; [reflexivity|]. unfold sumf in *. simpl. rewrite H by now left. rewrite IH; [reflexivity | intros; apply H; now right]. Qed.
+Lemma sumf_app : forall f l1 l2, sumf f (l1 ++ l2) = (sumf f l1 + sumf f l2)%nat.
+Proof. intros. unfold sumf. rewrite map_app. induction (map f l1); simpl; lia. Qed.
+
+Lemma sumf_incl : forall f l1 l2, NoDup l1 -> NoDup l2 -> incl l1 l2 ->
+  (forall x, In x l2 -> ~ In x l1 -> f x = O) -> sumf f l1 = sumf f l2.
+Proof.
+  intros f l1. induction l1 as [|x l1 IH]; intros l2 N1 N2 Hi Hz.
+  - symmetry. apply sumf_zero. intros y Hy. apply Hz; auto.
+  - inversion N1 as [|? ? Hx N1']; subst.
+    assert (Hin : In x l2) by (apply Hi; now left).
+    apply in_split in Hin as [A [B ->]].
+    pose proof (NoDup_remove_1 _ _ _ N2) as N2'. pose proof (NoDup_remove_2 _ _ _ N2) as Hx2.
+    rewrite sumf_app. unfold sumf at 1 3. simpl. fold (sumf f l1). fold (sumf f B).
+    rewrite (IH (A ++ B) N1' N2').
+    + rewrite sumf_app. lia.
+    + intros y Hy. assert (In y (A ++ x :: B)) by (apply Hi; now right).
+      apply in_app_or in H as [H|[H|H]]; [apply in_or_app; now left | subst; contradiction | apply in_or_app; now right].
+    + intros y Hy Hn. apply Hz.
+      * apply in_app_or in Hy as [Hy|Hy]; apply in_or_app; [now left | right; now right].
+      * intros [<-|H]; [contradiction | contradiction].
+Qed.
+
+(* transfer of a row count from the chart to the sorted loud frame *)
+Lemma src_to_frame : forall (m : hnote -> bool) src s,
+  Permutation (filter loud (notes_df src)) s ->
+  (forall l r, m (set_len l r) = m r) -> (forall r, m r = true -> loud r = true) ->
+  cnt m (all_notes src) = cnt m s.
+Proof.
+  intros m src s P H1 H2.
+  rewrite <- (all_notes_df_cnt m src H1), <- (cnt_perm _ m _ _ P), cnt_filter.
+  apply cnt_ext_in. intros r _. destruct (m r) eqn:E; [now rewrite (H2 r E) | now rewrite andb_false_r].
+Qed.
+
+Lemma hasbit_loud : forall b r, b <> 0 -> (Z.land (hn_hs r) b =? b) = true -> loud r = true.
+Proof.
+  intros b r Hb H. unfold loud. destruct (hn_hs r =? 0) eqn:E.
+  - apply Z.eqb_eq in E. rewrite E, Z.land_0_l in H. apply Z.eqb_eq in H. congruence.
+  - simpl. now rewrite !orb_true_r.
+Qed.
+Lemma named_loud : forall r, negb (name_empty (hn_file r)) = true -> loud r = true.
+Proof. intros r H. unfold loud. rewrite H. now rewrite !orb_true_r. Qed.
+
+Lemma group_files_length : forall gv, (forall r, In r gv -> single_seg (hn_file r) = true) ->
+  length (group_files gv) = cnt (fun r => negb (name_empty (hn_file r))) gv.
+Proof.
+  induction gv as [|r gv IH]; intro H; [reflexivity|].
+  rewrite group_files_cons, app_length, cnt_cons, IH by (intros; apply H; now right). f_equal.
+  specialize (H r (or_introl eq_refl)). destruct (hn_file r) as [|x [|]]; try discriminate.
+  rewrite name_empty_single. simpl. destruct (x =? 0); reflexivity.
+Qed.
+
+Section Demand.
+  Variables (src tgt : hmap) (s : list hnote).
+  Hypothesis Hwf : wf src tgt = true.
+  Hypothesis Hns : no_semicolon src = true.
+  Hypothesis Ps : Permutation (filter loud (notes_df src)) s.
+
+  Lemma need_demand_tv : forall t v,
+    need (filter (fun r => hn_vol r =? v) (at_time t s)) = demand_tv src t v.
+  Proof.
+    intros t v. unfold need, demand_tv.
+    assert (B : forall b, b <> 0 -> count_bit b (filter (fun r => hn_vol r =? v) (at_time t s)) = nbit b (at_tv t v (all_notes src))).
+    { intros b Hb. unfold count_bit, nbit, at_tv, at_time. fold (cnt (has_bit b) (filter (fun r => hn_vol r =? v) (filter (fun r => hn_off r =? t) s))).
+      fold (cnt (fun r => Z.land (hn_hs r) b =? b) (filter (fun r => (hn_off r =? t) && (hn_vol r =? v)) (all_notes src))).
+      rewrite !cnt_filter.
+      rewrite (src_to_frame (fun r => (hn_off r =? t) && (hn_vol r =? v) && (Z.land (hn_hs r) b =? b)) src s Ps).
+      - apply cnt_ext_in. intros r _. unfold has_bit. now rewrite andb_assoc.
+      - reflexivity.
+      - intros r H. apply andb_prop in H as [_ H]. now apply (hasbit_loud b). }
+    rewrite !B by discriminate. f_equal.
+    rewrite group_files_length.
+    - unfold nnamed, at_tv, at_time.
+      fold (cnt (fun r => negb (name_empty (hn_file r))) (filter (fun r => (hn_off r =? t) && (hn_vol r =? v)) (all_notes src))).
+      rewrite !cnt_filter.
+      rewrite (src_to_frame (fun r => (hn_off r =? t) && (hn_vol r =? v) && negb (name_empty (hn_file r))) src s Ps).
+      + apply cnt_ext_in. intros r _. now rewrite andb_assoc.
+      + reflexivity.
+      + intros r H. apply andb_prop in H as [_ H]. now apply named_loud.
+    - intros r Hr. apply filter_In in Hr as [Hr _]. unfold at_time in Hr. apply filter_In in Hr as [Hr _].
+      apply (src_rows_ok src tgt s r Hwf Hns Ps Hr).
+  Qed.
+
+  Lemma total_need_demand : forall t, total_need (group_by hn_vol (at_time t s)) = demand src t.
+  Proof.
+    intro t. unfold total_need, demand, group_by. rewrite map_map. simpl.
+    change (sumf (fun v => need (filter (fun r => hn_vol r =? v) (at_time t s))) (usort (map hn_vol (at_time t s)))
+            = sumf (demand_tv src t) (dedup (map hn_vol (at_time t (all_notes src))))).
+    rewrite (sumf_incl _ (usort (map hn_vol (at_time t s))) (dedup (map hn_vol (at_time t (all_notes src))))).
+    - unfold sumf. f_equal. apply map_ext. intro v. apply need_demand_tv.
+    - apply sorted_lt_NoDup, usort_sorted.
+    - apply dedup_NoDup.
+    - intros v Hv. apply (proj1 (usort_in _ _)) in Hv. apply (proj2 (dedup_in _ _)). apply in_map_iff in Hv as [r [<- Hr]].
+      unfold at_time in *. apply filter_In in Hr as [Hr Et].
+      apply (Permutation_in _ (Permutation_sym Ps)) in Hr. apply filter_In in Hr as [Hr _].
+      unfold notes_df in Hr. apply in_app_or in Hr as [Hr|Hr].
+      + apply in_map_iff in Hr as [r0 [<- Hr0]]. apply in_map_iff. exists r0. split; [reflexivity|].
+        apply filter_In. split; [unfold all_notes; apply in_or_app; now left | exact Et].
+      + apply in_map_iff. exists r. split; [reflexivity|].
+        apply filter_In. split; [unfold all_notes; apply in_or_app; now right | exact Et].
+    - intros v _ Hn0. assert (Hn : ~ In v (map hn_vol (at_time t s))) by (intro X; apply Hn0; apply (proj2 (usort_in _ _)); exact X).
+      assert (filter (fun r => hn_vol r =? v) (at_time t s) = []) as ->; [|reflexivity].
+      destruct (filter (fun r => hn_vol r =? v) (at_time t s)) as [|r l] eqn:E; [reflexivity|]. exfalso.
+      assert (Hr : In r (filter (fun r => hn_vol r =? v) (at_time t s))) by (rewrite E; now left).
+      apply filter_In in Hr as [Hr Ev]. apply Z.eqb_eq in Ev. apply Hn. rewrite <- Ev. now apply in_map.
+  Qed.
+End Demand.
+
+Lemma count_atoms_at : forall a t l,
+  count atom_eqb a (atoms_at t l) = if atom_time a =? t then count atom_eqb a l else O.
+Proof.
+  intros a t l. unfold atoms_at. induction l as [|x l IH]; simpl; [destruct (atom_time a =? t); reflexivity|].
+  destruct (atom_time x =? t) eqn:Ex; simpl; rewrite IH; destruct (atom_time a =? t) eqn:Ea; try reflexivity;
+    destruct (atom_eqb a x) eqn:E; try reflexivity; apply atom_eqb_eq in E; subst; congruence.
+Qed.
+
+Section Whole2.
+  Variables (psrc ptgt : list nat) (src tgt out : hmap).
+  Hypothesis Hwf : wf src tgt = true.
+  Hypothesis Hns : no_semicolon src = true.
+  Hypothesis Hrun : hitsound_copy psrc ptgt src tgt = Some out.
+
+  (* per time: as many notes sound as the sounds need, or all of them; when everything fits, every clap, finish,
+     whistle and named sample of the source is on the notes *)
+  Theorem hs_bounded : bounded src tgt out.
+  Proof.
+    destruct (copy_decompose _ _ _ _ _ Hrun) as (s & df & df' & smp' & Ps & Pd & Hr & ->).
+    intro t.
+    assert (Hslots : slots_at t df = nnotes tgt t).
+    { unfold nnotes. rewrite slots_at_eq. unfold at_time.
+      fold (cnt (fun r => hn_off r =? t) df). fold (cnt (fun r => hn_off r =? t) (all_notes tgt)).
+      rewrite <- (cnt_perm _ _ _ _ Pd), cnt_map. simpl.
+      apply (all_notes_df_cnt (fun r => hn_off r =? t)). reflexivity. }
+    pose proof (total_need_demand src tgt s Hwf Hns Ps t) as Hneed.
+    split.
+    - destruct (one_time src tgt s df df' smp' Hwf Hns Ps Pd Hr t 0 [] 0) as (_ & _ & _ & D).
+      rewrite Hneed, Hslots in D. rewrite <- D.
+      unfold nsounding, at_time. fold (cnt sounding (filter (fun r => hn_off r =? t) df')).
+      fold (cnt sounding (filter (fun r => hn_off r =? t) (all_notes (mkM (filter is_hit df') (filter (fun r => negb (is_hit r)) df') smp')))).
+      rewrite !cnt_filter. apply out_to_frame.
+    - intros Hfit [[[t' k] p] v]. rewrite !count_atoms_at. unfold atom_time. simpl.
+      destruct (t' =? t) eqn:Et; [|lia]. apply Z.eqb_eq in Et. subst t'.
+      destruct (one_time src tgt s df df' smp' Hwf Hns Ps Pd Hr t k p v) as (_ & B & C & _).
+      rewrite Hneed, Hslots in C. destruct (C Hfit) as [C1 C2].
+      unfold copy_atoms, note_atoms.
+      pose proof (count_copy_atoms_rows (t, k, p, v)) as N1. pose proof (count_note_atoms_rows (t, k, p, v)) as N2.
+      unfold acount in N1, N2. rewrite N1, N2, !out_to_frame. lia.
+  Qed.
+End Whole2.
+
+(* the whole specification, for every pair in the domain whose source file names contain no ';' *)
+Theorem hs_spec : forall psrc ptgt src tgt out,
+  wf src tgt = true -> no_semicolon src = true ->
+  hitsound_copy psrc ptgt src tgt = Some out -> Spec src tgt out.
+Proof.
+  intros psrc ptgt src tgt out Hwf Hns H. constructor.
+  - eapply hs_notes_preserved; eauto. unfold wf in Hwf. apply andb_prop in Hwf as [_ Hwf]. exact Hwf.
+  - eapply hs_no_invention; eauto.
+  - eapply hs_bounded; eauto.
+  - eapply hs_named_conserved; eauto.
 Qed.
